@@ -197,6 +197,8 @@ pub enum Stop {
     Diverged(String),
     /// threads never became quiescent
     NoQuiescence,
+    /// free-running command still consuming CPU when the wall cap was reached: slow, not hung
+    WallCapBusy,
 }
 
 pub struct Outcome<T> {
@@ -314,7 +316,12 @@ impl Sched {
             }
             match qs {
                 QState::Done => break Stop::Done,
-                QState::Timeout => break Stop::NoQuiescence,
+                QState::Timeout => {
+                    // 20 s without a quiescent moment: one long computation between two gates (slow
+                    // scenario) or a machine that starves the threads (environmental, repeated by the driver)
+                    let busy = cpu_used_by_other_threads(Duration::from_millis(700));
+                    break if busy > 350_000_000 { Stop::WallCapBusy } else { Stop::NoQuiescence };
+                }
                 QState::Quiescent => {}
             }
             if step >= step_cap {
@@ -823,6 +830,19 @@ pub fn drain_rayon() {
     }
 }
 
+/// CPU time (ns) consumed by the other threads of the process during `window`
+pub fn cpu_used_by_other_threads(window: Duration) -> u64 {
+    let self_tid = unsafe { libc::syscall(libc::SYS_gettid) } as i32;
+    let mut q = Quiesce::new(self_tid);
+    let total = |q: &mut Quiesce| -> u64 {
+        if q.sample() { q.cur.iter().map(|e| e.1.run_ns).sum() } else { 0 }
+    };
+    let a = total(&mut q);
+    std::thread::sleep(window);
+    let b = total(&mut q);
+    b.saturating_sub(a)
+}
+
 /// wait (bounded) until every other thread of the process is asleep
 pub fn drain_threads() {
     let self_tid = unsafe { libc::syscall(libc::SYS_gettid) } as i32;
@@ -868,7 +888,11 @@ impl Sched {
                 Err(std::sync::mpsc::TryRecvError::Disconnected) => break (None, Stop::NoProgress),
                 Err(std::sync::mpsc::TryRecvError::Empty) => {
                     if t0.elapsed() > wall_cap {
-                        break (None, Stop::NoProgress);
+                        // a hang (every thread asleep) or merely slow (threads still burning CPU, e.g. zstd
+                        // level 22 on a thousand blobs in a debug build)? only the former says something
+                        // about the code under test
+                        let busy = cpu_used_by_other_threads(Duration::from_millis(700));
+                        break (None, if busy > 50_000_000 { Stop::WallCapBusy } else { Stop::NoProgress });
                     }
                     std::thread::sleep(Duration::from_micros(300));
                 }
